@@ -1345,6 +1345,12 @@ func main() {
 	} else {
 		concurrencyStage(c, g, 40, 300)
 	}
+	// (last) end-to-end: request sequences → ArrowBuffer → FlushAll → Parquet read-back
+	if c.Thorough() {
+		e2eStage(c, g, 1500)
+	} else {
+		e2eStage(c, g, 120)
+	}
 	verifclock.Real()
 	c.Extra["lines"] = produced
 	c.Finish("cases = batches (1..12 lines) rendered from ground-truth points of the line-protocol grammar (all escapes, UTF-8, 5 field types, every boolean spelling, timestamps over int64 incl. min/max/negatives × 4 precisions, legal spacing, comments, blank lines, CRLF) + hazard-class points + mutated and raw malformed lines; non-trivial = multi-line or containing an escape/quote/comma; distinct = distinct (precision, payload)")
